@@ -892,15 +892,12 @@ setup_arch(kdump_ctx_t *ctx, unsigned fidx, off_t pos, off_t len,
 					 "Cannot read CPU #%" PRIuFAST32 " state",
 					 i);
 		ia32_efer = dump64toh(ctx, cpu_state.ia32_efer);
-		if (ia32_efer & ((uint64_t)1 << IA32_EFER_LMA)) {
-			set_arch_name(ctx, KDUMP_ARCH_X86_64);
-			return KDUMP_OK;
-		}
+		if (ia32_efer & ((uint64_t)1 << IA32_EFER_LMA))
+			return set_arch_name(ctx, KDUMP_ARCH_X86_64);
 		pos += sz;
 	}
 
-	set_arch_name(ctx, KDUMP_ARCH_IA32);
-	return KDUMP_OK;
+	return set_arch_name(ctx, KDUMP_ARCH_IA32);
 }
 
 /** Open a SADUMP file.
